@@ -110,7 +110,7 @@ func writeDoc(d *logical.Doc, format string, neutral map[string]bool, w wopts) [
 	case "docx":
 		return ooxml.WriteDocx(d, ooxml.DocxOptions{Neutral: neutral, Store: w.store, Pretty: w.pretty,
 			BodyStyle: []string{"", "Normal", "BodyText"}[w.bodyStyle%3], OutlineKeepsBodyStyle: (w.bodyStyle/3)%2 == 1,
-			NSPrefix: []string{"", "", "", "ns0", "wml"}[(w.bodyStyle/6)%5]})
+			NSPrefix: []string{"", "", "", "ns0", "wml"}[(w.bodyStyle/6)%5], NumIDZero: w.bodyStyle%4 == 1})
 	default:
 		return odf.WriteODT(d, odf.Options{Neutral: neutral, Pretty: w.pretty, ColumnsRepeated: w.colsRepeated,
 			BodyStyle: []string{"", "Standard", "Text_20_body"}[w.bodyStyle%3]})
@@ -172,6 +172,41 @@ func evaluate(c *fw.Ctx, id string, d *logical.Doc, format string, neutral map[s
 			res.detail["text"] = clip(text)
 			add("Text()", c15.TraceTokens(text, sk, c15.TraceOpts{Foreign: foreign}))
 			cnt("tokens_traced_text", len(sk.Tokens))
+			// a plain body paragraph is plain in the text too: the line that holds its first
+			// token starts with a word of the paragraph itself, not with a list marker
+			lines := strings.Split(text, "\n")
+			for bi := range d.Blocks {
+				b := &d.Blocks[bi]
+				if b.Kind != logical.BPara || b.Para == nil {
+					continue
+				}
+				toks := b.Para.Tokens()
+				own := strings.Fields(b.Para.PlainText())
+				if len(toks) == 0 || len(own) == 0 {
+					continue
+				}
+				for _, ln := range lines {
+					if !strings.Contains(ln, toks[0]) {
+						continue
+					}
+					fs := strings.Fields(ln)
+					if len(fs) == 0 {
+						break
+					}
+					okStart := false
+					for _, w := range own {
+						if strings.HasPrefix(fs[0], w) || strings.HasPrefix(w, fs[0]) {
+							okStart = true
+							break
+						}
+					}
+					cnt("plain_paragraph_line_starts_checked", 1)
+					if !okStart {
+						add("Text()", []c15.Problem{{Class: "plain-paragraph-as-list-item", What: fmt.Sprintf("the plain paragraph with token %s is shown as %q: the line starts with %q, which is no word of the paragraph", toks[0], clip(ln), fs[0])}})
+					}
+					break
+				}
+			}
 		}
 		// 1b. with header/footer exclusion requested: the body stays the same
 		textX, _, err := tabula.Open(path).ExcludeHeadersAndFooters().Text()
